@@ -1026,13 +1026,14 @@ class NF:
     def _builder(self, pat, init, rest, env, muts):
         """list-builder idiom: `let mut v = vec![..]; for x in it { v.push(e) }` / straight `v.push(e)`."""
         lid = pat["id"]
-        if init[0] == "call" and str(init[1]).endswith(("Vec::<T>::new", "vec::Vec::<T>::new")):
-            init = ("list", ())
+        if init[0] == "call" and str(init[1]).endswith(("Vec::<T>::new", "vec::Vec::<T>::new", "Vec::<T>::with_capacity", "vec::Vec::<T>::with_capacity")):
+            init = ("list", ())       # (a capacity is no content)
         if init[0] == "call" and not init[2] and str(init[1]).rsplit("::", 1)[-1] in ("new", "default") and any(
                 w in (H.strip(pat).get("ty") or "") for w in ("OrderedMap<", "BTreeMap<", "HashMap<", "Vec<", "BTreeSet<")):
             init = ("list", ())       # an empty map / list of the crate or of std, filled below
         is_string = (H.strip(pat).get("ty") or "").replace(" ", "") in ("std::string::String", "String", "alloc::string::String")
-        if init[0] == "call" and str(init[1]).endswith(("String::new", "string::String::new")) and not init[2]:
+        if init[0] == "call" and (str(init[1]).endswith(("String::new", "string::String::new")) and not init[2]
+                                  or is_string and str(init[1]).endswith(("String::with_capacity", "string::String::with_capacity"))):
             sb = self._string_builder(pat, rest, env)
             if sb is not None:
                 return sb
@@ -1062,6 +1063,10 @@ class NF:
                             if st2.get("k") == "Let":
                                 self.bind_let(st2, env2)
                         return self.nf(muts[0]["args"][0], env2)
+            if is_string and init[0] not in ("unknown",):
+                rb = self._rewritten_in_loop(pat, init, rest, env)
+                if rb is not None:
+                    return rb
             return ("unknown", f"mutated local {pat['name']}")
         items = list(init[1])
         accounted = 0
@@ -1115,6 +1120,51 @@ class NF:
         if accounted != len(muts):
             return ("unknown", f"local {pat['name']} is mutated outside the enclosing block")
         return ("list", tuple(items))
+
+    def _rewritten_in_loop(self, pat, init, rest, env):
+        """A text buffer that keeps its first value as a stem and gets a new tail every round of one loop:
+        `let mut s = stem(); let n = s.len(); loop { .. use s ..; s.truncate(n); write!(s, "{x}") }`. Its value wherever it is read is
+        the stem, or the stem followed by what one round appended: ("ifelse", <a later round>, stem + tail, stem). None when the local
+        is touched in any other way."""
+        lid = pat["id"]
+        stem_len = None
+        loop = None
+        for st in rest:
+            k = st.get("k")
+            if k == "Let":
+                if self._mutations(lid, [st]):
+                    return None
+                i0 = H.strip(st["init"]) if st.get("init") is not None else None
+                if loop is None and i0 is not None and i0.get("k") == "MethodCall" and i0["name"] == "len" and not i0["args"] and _is_local(i0["recv"], lid) \
+                        and st["pat"].get("k") == "Binding":
+                    stem_len = st["pat"]["id"]
+                continue
+            e = H.strip(st.get("e")) if k in ("Semi", "Expr") else None
+            if e is None or not self._mutations(lid, [e]):
+                continue
+            if e.get("k") != "Loop" or loop is not None:
+                return None
+            loop = e
+        if loop is None or stem_len is None:
+            return None
+        tail = []
+        truncated = False
+        for m in self._mutations(lid, [loop]):
+            if m.get("k") != "MethodCall":
+                return None
+            if m["name"] == "truncate" and len(m["args"]) == 1 and _is_local(m["args"][0], stem_len) and not tail:
+                truncated = True
+            elif m["name"] == "write_fmt" and truncated and H.strip(m["args"][0]).get("k") == "FormatArgs":
+                tail += [q if q[0] == "lit" else ("hole", ("unknown", "value of a later round"), q[2], q[3] if len(q) > 3 else "?")
+                         for q in self.format_nf(H.strip(m["args"][0]), Env())[1]] if False else [("hole", ("unknown", "what a round of the loop appends"), "display", "?")]
+            elif m["name"] in ("push_str", "push") and truncated and len(m["args"]) == 1:
+                tail.append(("hole", ("unknown", "what a round of the loop appends"), "display", "?"))
+            else:
+                return None
+        if not truncated or not tail:
+            return None
+        stem = ("hole", init, "display", "?")
+        return ("ifelse", ("unknown", "a later round of the loop"), ("format", (stem,) + tuple(tail)), init)
 
     def _const_array(self, path):
         """("tuple", items) for a constant of the crate that is an array literal"""
@@ -1398,6 +1448,19 @@ def _join_run(run):
     import itertools
     for vals in itertools.product([True, False], repeat=len(extra)):
         assign = dict(zip(extra, vals))
+        # (two spellings of one decision — `x` and `!x` — go together)
+        seen_dec = {}
+        consistent = True
+        for c_, v_ in assign.items():
+            try:
+                k_, d_ = decision(c_, v_)
+            except Exception:
+                k_, d_ = ("cond", c_), v_
+            if seen_dec.setdefault(k_, d_) != d_:
+                consistent = False
+                break
+        if not consistent:
+            continue
         parts = []
         used = []
         for e in run:
@@ -1412,7 +1475,21 @@ def _join_run(run):
                 merged[-1] = ("lit", merged[-1][1] + p[1])
             else:
                 merged.append(p)
-        ctx = base + tuple(("alt", c, assign[c]) for c in extra if c in used)
+        # a part that is left out was left out for a reason: the conditions it sits under did not all hold. Where they are not
+        # among the conditions of the parts that were written, that reason is part of this alternative's context
+        left_out = []
+        for e in run:
+            own = e.ctx[len(base):]
+            if own and not all(assign[c[1]] == c[2] for c in own) and not any(c[1] in used for c in own):
+                if len(own) == 1:
+                    left_out.append(("alt", own[0][1], not own[0][2]))
+                else:
+                    conj = None
+                    for c in own:
+                        term = c[1] if c[2] else ("not", c[1])
+                        conj = term if conj is None else ("binop", "And", conj, term)
+                    left_out.append(("alt", conj, False))
+        ctx = base + tuple(("alt", c, assign[c]) for c in extra if c in used) + tuple(dict.fromkeys(left_out))
         key = (tuple(merged), ctx)
         if key not in [(o.parts, o.ctx) for o in out]:
             first = run[0]
@@ -1926,6 +2003,18 @@ class Extractor:
             while v[0] == "call" and str(v[1]).rsplit("::", 1)[-1] in ("as_bytes", "as_str", "as_ref") and len(v[2]) == 1:
                 v = v[2][0]
             a0 = H.strip(e["args"][0])
+            if v[0] == "const":
+                # a named constant holding the text (`const DERIVES: &[u8] = b"#[derive(..)]\n";`): written as it stands
+                cb_ = self.lib.body(v[1])
+                if cb_ is not None and cb_.get("hir") is not None and str(cb_.get("kind", "")).startswith("Const"):
+                    try:
+                        cv = H.strip(H.norm_body(cb_)["value"])
+                        while cv.get("k") == "AddrOf":
+                            cv = H.strip(cv["e"])
+                        if cv.get("k") == "Lit" and "v" in cv and (isinstance(cv["v"], str) and len(cv["v"]) <= 200 or isinstance(cv["v"], (list, tuple)) and len(cv["v"]) <= 200):
+                            v = ("lit", cv["v"])
+                    except Unrecognised:
+                        pass
             if v[0] == "lit" and isinstance(v[1], (list, tuple)) and all(isinstance(b_, int) and 0 <= b_ < 256 for b_ in v[1]):
                 try:
                     v = ("lit", bytes(v[1]).decode("utf-8"))     # a byte-string literal: `write_all(b"}\n")`
@@ -2069,6 +2158,8 @@ class Extractor:
                     # (a `match` is exhaustive: its last arm is taken whenever the others are not, whatever its pattern says)
                     # `_ => ..` / `other => ..`: taken when none of the earlier patterns matched
                     alts = tuple(("alt", ("islet", labels[j], scrut), False) for j in range(i) if not e["arms"][j].get("guard"))
+                    # .. and an earlier arm with a guard was not taken either: its pattern and its guard did not hold together
+                    alts += tuple(("alt", ("binop", "And", ("islet", lab_g, scrut), g_nf), False) for (lab_g, g_nf) in guards)
                 else:
                     # this arm was taken, the (unguarded) arms before it were not: arms of one match exclude each other
                     alts = tuple(("alt", ("islet", labels[j], scrut), False) for j in range(i)
@@ -2471,6 +2562,9 @@ def nf_simplify(n):
             return base[1][int(n[2])]
         if base[0] == "call" and isinstance(base[1], str) and base[1].startswith("ctor:") and str(n[2]).isdigit() and int(n[2]) < len(base[2]):
             return base[2][int(n[2])]     # `Wrapper(x).0`
+        if base[0] == "payload" and isinstance(base[2], tuple) and base[2][0] == "call" and isinstance(base[2][1], str) and base[2][1].startswith("ctor:") \
+                and base[2][1].rsplit("::", 1)[-1] == str(base[1]).rsplit("::", 1)[-1].split("(")[0] and str(n[2]).isdigit() and int(n[2]) < len(base[2][2]):
+            return base[2][2][int(n[2])]     # `let Pair(a, b) = Pair(x, y)`: a is x, b is y
         if base[0] in ("ifelse", "match") and str(n[2]).isdigit():
             pr = project(base, int(n[2]))      # a component of a tuple chosen by a test: the test chooses between the components
             if pr != n:
@@ -2502,6 +2596,8 @@ def nf_simplify(n):
             b_ = nf_simplify(("match", sc[3], n[2]))
             if a_[0] != "match" and b_[0] != "match":
                 return ("ifelse", sc[1], a_, b_)
+    if n and n[0] == "joinmap" and len(n) > 3 and isinstance(n[3], tuple) and n[3] and n[3][0] == "lit" and isinstance(n[3][1], str):
+        n = n[:3] + (n[3][1],) + tuple(n[4:])      # a separator that turned out to be a literal text
     if n and n[0] == "joinmap" and isinstance(n[1], tuple) and n[1][0] == "tuple" and isinstance(n[3], str) and 1 <= len(n[1][1]) <= 8:
         # a join over an array literal: the texts of its elements, one after the other with the separator in between
         parts = []
@@ -2985,7 +3081,8 @@ class CallExpander:
             if k == "MethodCall" and x["name"] == "write_fmt" and is_f(x["recv"]):
                 return list(N.format_nf(x["args"][0], en)[1])
             if k == "MethodCall" and x["name"] == "write_str" and is_f(x["recv"]) and len(x["args"]) == 1:
-                return as_parts(N.nf(x["args"][0], en))
+                aty = H.strip(x["args"][0]).get("ty") or "&str"
+                return [(q[0], q[1], q[2], aty) if q[0] == "hole" and len(q) > 3 and q[3] in ("?", None, "") else q for q in as_parts(N.nf(x["args"][0], en))]
             if k == "Call" and (H.callee_path(x) or "").rsplit("::", 1)[-1] == "Ok" and not any(is_f(y) for y in H.exprs(x)):
                 return []
             # the text of another value's Display, forwarded: `self.inner.fmt(f)` / `Display::fmt(&self.inner, f)`
@@ -3067,7 +3164,8 @@ class CallExpander:
         def block(x, en):
             en2 = en.child()
             parts = []
-            for st in stmts_of(x):
+            all_stmts = stmts_of(x)
+            for st in all_stmts:
                 k = st.get("k")
                 if k == "Let":
                     init = H.strip(st["init"]) if st.get("init") else None
@@ -3090,8 +3188,68 @@ class CallExpander:
                     continue
                 if k not in ("Semi", "Expr"):
                     raise No()
+                if skip_next.pop(id(st), False):
+                    continue
+                fr = first_and_rest(st, all_stmts, en2)
+                if fr is not None:
+                    parts += fr
+                    continue
                 parts += resolve_seps(text(st["e"], en2))
             return parts
+
+        skip_next = {}
+
+        def first_and_rest(st, stmts, en):
+            """`if let Some(first) = it.next() { W(first) }` followed by `for item in it { f.write_str(sep)?; W(item) }`: the items
+            joined by sep — the join written by hand. Returns the parts, or None when the statements are not of that form."""
+            e1 = H.strip(st["e"])
+            if e1.get("k") != "If" or e1.get("else") is not None:
+                return None
+            c = H.strip(e1["cond"])
+            if c.get("k") != "LetExpr":
+                return None
+            init = H.strip(c["init"])
+            pat = c["pat"]
+            if not (init.get("k") == "MethodCall" and init["name"] == "next" and not init["args"] and pat.get("k") == "TupleStruct" and len(pat["pats"]) == 1
+                    and (pat.get("path") or {}).get("path", "").rsplit("::", 1)[-1] == "Some"):
+                return None
+            it = H.strip(init["recv"])
+            while it.get("k") == "AddrOf":
+                it = H.strip(it["e"])
+            if not (it.get("k") == "Path" and it.get("res") == "local"):
+                return None
+            i = next((j for j, x in enumerate(stmts) if x is st), None)
+            nxt = stmts[i + 1] if i is not None and i + 1 < len(stmts) else None
+            e2 = H.strip(nxt["e"]) if nxt is not None and nxt.get("k") in ("Semi", "Expr") else None
+            if e2 is None or e2.get("k") != "For":
+                return None
+            it2 = H.strip(e2["iter"])
+            if not (it2.get("k") == "Path" and it2.get("res") == "local" and it2.get("id") == it.get("id")):
+                return None
+            src, val, conds = iter_view(N.nf(it, en))
+            if conds:
+                return None
+            env_f = en.child()
+            bind_pattern(pat["pats"][0], val, env_f)
+            w_first = as_nf(text(e1["then"], env_f))
+            env_i = en.child()
+            bind_pattern(e2["pat"], val, env_i)
+            body = H.strip(e2["body"])
+            if body.get("k") != "Block":
+                return None
+            ys = [y for y in stmts_of(body)]
+            if len(ys) < 2 or any(y.get("k") not in ("Semi", "Expr") for y in ys):
+                return None
+            sep_parts = text(ys[0]["e"], env_i)
+            rest = []
+            for y in ys[1:]:
+                rest += text(y["e"], env_i)
+            if as_nf(rest) != w_first or len(sep_parts) != 1:
+                return None
+            sp_ = sep_parts[0]
+            sep = sp_[1] if sp_[0] == "lit" else sp_[1]      # a literal text, or the normal form of the separator value
+            skip_next[id(nxt)] = True
+            return [("hole", ("joinmap", src, w_first, sep), "display", "?")]
 
         def text_and_value(x, en):
             """(parts written into the formatter while x is evaluated, normal form of x's value or None)"""
@@ -3220,7 +3378,48 @@ class CallExpander:
 
     def expand(self, n, depth=0):
         r = self._expand(n, depth)
+        if depth == 0:
+            r = self._fold_const_components(r)
         return nf_simplify(r) if depth == 0 else r     # `Struct { f: e, .. }.f` of an expanded constructor helper is e
+
+    def _const_tuple(self, path):
+        """the literal components of a named constant of the crate that is a tuple of literals (`const SOAPENV: (&str, &str) = (..)`)"""
+        key = "consttuple:" + path
+        if key not in self.cache:
+            self.cache[key] = None
+            b = self.F.lib.body(path)
+            if b is not None and b.get("hir") is not None and str(b.get("kind", "")).startswith("Const"):
+                try:
+                    v = H.strip(H.norm_body(b)["value"])
+                except Unrecognised:
+                    v = {}
+                if v.get("k") == "Tup" and all(H.strip(x).get("k") == "Lit" and "v" in H.strip(x) for x in v["es"]):
+                    self.cache[key] = tuple(("lit", H.strip(x)["v"]) for x in v["es"])
+        return self.cache[key]
+
+    def _fold_const_components(self, n):
+        if not isinstance(n, tuple):
+            return n
+        if n and n[0] == "field" and isinstance(n[1], tuple) and n[1] and n[1][0] == "const" and str(n[2]).isdigit():
+            comps = self._const_tuple(n[1][1])
+            if comps is not None and int(n[2]) < len(comps):
+                return comps[int(n[2])]
+        if n and n[0] == "hole" and len(n) > 2 and n[2] == "display" and isinstance(n[1], tuple) and n[1] and n[1][0] == "const":
+            # a named text constant shown in a template (`push_str(MOD_NAME_PREFIX)`): the text (short one-liners only: the large
+            # verbatim blocks stay what they are)
+            txt = self.const_text(n[1][1])
+            if txt is not None and len(txt) <= 120 and "\n" not in txt:
+                return ("lit", txt)
+        out = tuple(self._fold_const_components(x) if isinstance(x, tuple) else x for x in n)
+        if out and out[0] == "format" and any(isinstance(q, tuple) and q and q[0] == "lit" for q in out[1]):
+            merged = []
+            for q in out[1]:
+                if q[0] == "lit" and merged and merged[-1][0] == "lit":
+                    merged[-1] = ("lit", merged[-1][1] + q[1])
+                else:
+                    merged.append(q)
+            out = ("format", tuple(merged)) + tuple(out[2:])
+        return out
 
     def _expand(self, n, depth=0):
         if not isinstance(n, tuple) or depth > 6:
@@ -3386,6 +3585,44 @@ def _joined_list(e):
     return None
 
 
+def _show_adaptor_elements(nf, CE):
+    """`joinmap(list of S(a, b) values, <Display of the element>, sep)` with S a tuple struct of the crate that has a Display of its
+    own: the list of the (a, b) tuples joined with what that Display writes for each — the form the same text has when it is built
+    from pairs and a `format!` per pair."""
+    if not (isinstance(nf, tuple) and nf):
+        return nf
+    if nf[0] == "joinmap" and isinstance(nf[1], tuple) and nf[1][0] == "list" and isinstance(nf[2], tuple):
+        lst = nf[1]
+        ctors = set()
+        for it in lst[1]:
+            v = it[1] if it[0] == "item" else it[2] if it[0] == "star" else None
+            ctors.add(v[1] if isinstance(v, tuple) and v[0] == "call" and isinstance(v[1], str) and v[1].startswith("ctor:") else None)
+        body = nf[2]
+        holes = [q for q in (body[1] if body[0] == "format" else [("hole", body, "display", "?")]) if q[0] == "hole" and q[1] == ("elem", lst)]
+        if len(ctors) == 1 and None not in ctors and holes:
+            spath = next(iter(ctors))[5:]
+            ds = CE.display_summary(spath)
+            if ds is not None:
+                new_items = []
+                arity = None
+                for it in lst[1]:
+                    v = it[1] if it[0] == "item" else it[2]
+                    arity = len(v[2])
+                    tup = ("tuple", tuple(v[2]))
+                    new_items.append(("item", tup) if it[0] == "item" else (it[0], it[1], tup) + tuple(it[3:]))
+                new_list = ("list", tuple(new_items))
+                self_val = ("call", "ctor:" + spath, tuple(("field", ("elem", new_list), str(i)) for i in range(arity)))
+                shown = nf_simplify(CE.expand(nf_subst(ds, {"self": self_val})))
+                parts = []
+                for q in (body[1] if body[0] == "format" else [("hole", body, "display", "?")]):
+                    if q[0] == "hole" and q[1] == ("elem", lst):
+                        parts += list(shown[1]) if shown[0] == "format" else ([("lit", shown[1])] if shown[0] == "lit" else [("hole", shown, "display", "?")])
+                    else:
+                        parts.append(q)
+                return ("joinmap", new_list, ("format", tuple(parts)), nf[3]) + tuple(nf[4:])
+    return tuple(_show_adaptor_elements(x, CE) if isinstance(x, tuple) else x for x in nf)
+
+
 def _canon_hole(p, CE, limit):
     nf, tr = p[1], p[2]
     ty = p[3] if len(p) > 3 else "?"
@@ -3402,6 +3639,7 @@ def _canon_hole(p, CE, limit):
         ds = CE.display_summary(ty) if is_struct else None
         if ds is not None:
             shown = nf_simplify(CE.expand(nf_subst(ds, {"self": e})))
+            shown = _show_adaptor_elements(shown, CE)
             if shown != e:
                 return _canon_hole(("hole", shown, tr, "?"), CE, limit)
     k = e[0]
